@@ -171,6 +171,9 @@ func (r *Run) callBuiltin(b *ssa.Builtin, args []Value, site ssa.Instruction) Va
 		switch x := args[0].(type) {
 		case Map:
 			if x.M != nil {
+				if r.WriteHook != nil {
+					r.WriteHook(mapSlot(x.M))
+				}
 				x.M.Entries = nil
 			}
 		}
